@@ -19,6 +19,11 @@ CLAIMED = {
   level_note="Trusted: the per-format models; value domains restricted to what each format can express (see evidence assumptions). Storage faults are not injected (no reacting code, DESIGN 7).",
   technique="deterministic simulation (seeded edit histories with restart-from-durable-text, rejected-operation faults, text/index consistency invariant, reference model, ddmin replay)",
   design_ref="4.5"),
+ "C02": dict(
+  level_text="Seeded operation histories over a register file of BondList objects (compiled extension as on disk) refined step by step against a dict model of undirected typed bonds; every view (array, set, per-atom and all-atom tables, adjacency and type matrices, graph, membership, equality, counts) is compared after every step. Out-of-range atom indices are injected as faults; every operation carrying an out-of-range scalar index first runs in a one-operation probe child forked from the current state, so process death, silent acceptance and corruption are attributed to the operation and the history continues. Sampling, not proof.",
+  level_note="Trusted: the dict model. Self-bonds and wrong-length masks are outside the generated domain. Two genuine defects in Cython source (cannot be rebuilt here) are listed in known_findings.json and reported as KNOWN-FINDING; any other disagreement is a VIOLATION.",
+  technique="deterministic simulation (seeded histories, out-of-range-index fault injection with fork-probe crash containment, reference model, ddmin replay)",
+  design_ref="4.3, 3.3"),
 }
 
 NA = {
